@@ -221,4 +221,828 @@ theorem inv_of_remove {s s' : St} {k c : Nat} (h : Inv s)
     have := (hmem x).mp hx
     simp_all
 
+/-! ### admissible removal arguments and what removals preserve -/
+
+def QS (s : St) (k : Nat) : Prop := k ∈ s.net.signs ∨ k ∉ s.idSet
+def QL (s : St) (k : Nat) : Prop := k ∈ s.net.lights ∨ k ∉ s.idSet
+def QLa (s : St) (k : Nat) : Prop := k ∈ lids s.net ∨ k ∉ s.idSet
+def QI (s : St) (i : Inter) : Prop := i ∈ s.net.inters ∨ i.id ∉ s.idSet
+
+/-- `s'` arose from `s` by removals: the id set only shrinks, and whatever left the network has a free id. -/
+structure Shrinks (s s' : St) : Prop where
+  idSet : ∀ x, x ∈ s'.idSet → x ∈ s.idSet
+  signs : ∀ k ∈ s.net.signs, QS s' k
+  lights : ∀ k ∈ s.net.lights, QL s' k
+  lanelets : ∀ k ∈ lids s.net, QLa s' k
+  inters : ∀ i ∈ s.net.inters, QI s' i
+
+theorem Shrinks.refl (s : St) : Shrinks s s :=
+  ⟨fun _ h => h, fun _ h => .inl h, fun _ h => .inl h, fun _ h => .inl h, fun _ h => .inl h⟩
+
+theorem QS.mono {s s' : St} {k : Nat} (h : Shrinks s s') (q : QS s k) : QS s' k := by
+  rcases q with q | q
+  · exact h.signs k q
+  · exact .inr fun hk => q (h.idSet k hk)
+theorem QL.mono {s s' : St} {k : Nat} (h : Shrinks s s') (q : QL s k) : QL s' k := by
+  rcases q with q | q
+  · exact h.lights k q
+  · exact .inr fun hk => q (h.idSet k hk)
+theorem QLa.mono {s s' : St} {k : Nat} (h : Shrinks s s') (q : QLa s k) : QLa s' k := by
+  rcases q with q | q
+  · exact h.lanelets k q
+  · exact .inr fun hk => q (h.idSet k hk)
+theorem QI.mono {s s' : St} {i : Inter} (h : Shrinks s s') (q : QI s i) : QI s' i := by
+  rcases q with q | q
+  · exact h.inters i q
+  · exact .inr fun hk => q (h.idSet _ hk)
+
+theorem Shrinks.trans {a b c : St} (h1 : Shrinks a b) (h2 : Shrinks b c) : Shrinks a c :=
+  ⟨fun x hx => h1.idSet x (h2.idSet x hx), fun k hk => (h1.signs k hk).mono h2, fun k hk => (h1.lights k hk).mono h2,
+   fun k hk => (h1.lanelets k hk).mono h2, fun i hi => (h1.inters i hi).mono h2⟩
+
+/-- what every removal establishes -/
+def Good (s s' : St) : Prop := Inv s' ∧ Shrinks s s'
+
+theorem Good.trans {a b c : St} (h1 : Good a b) (h2 : Good b c) : Good a c := ⟨h2.1, h1.2.trans h2.2⟩
+
+/-! ### sequencing -/
+
+theorem andThen_prop {P : St → Prop} {r : St × Out} {g : St → St × Out}
+    (h1 : P r.1) (h2 : ∀ s1, P s1 → P (g s1).1) : P (andThen r g).1 := by
+  unfold andThen
+  split
+  · exact h2 _ h1
+  · exact h1
+
+theorem andThen_ok {r : St × Out} {g : St → St × Out} {s' : St} (h : andThen r g = (s', .ok)) :
+    ∃ s1, r = (s1, .ok) ∧ g s1 = (s', .ok) := by
+  obtain ⟨s1, o⟩ := r
+  cases o with
+  | ok => exact ⟨s1, rfl, h⟩
+  | err e => simp [andThen] at h
+  | id n => simp [andThen] at h
+
+theorem forEach_good {α : Type} (f : St → α → St × Out) (Q : St → α → Prop)
+    (hf : ∀ s a, Inv s → Q s a → Good s (f s a).1)
+    (hQ : ∀ s s' a, Shrinks s s' → Q s a → Q s' a) :
+    ∀ (as : List α) (s : St), Inv s → (∀ a ∈ as, Q s a) → Good s (forEach f s as).1
+  | [], s, hi, _ => ⟨hi, Shrinks.refl s⟩
+  | a :: as, s, hi, hq => by
+    show Good s (andThen (f s a) (fun s1 => forEach f s1 as)).1
+    have h1 := hf s a hi (hq a (by simp))
+    apply andThen_prop (P := fun t => Good s t) h1
+    intro s1 hg
+    have := forEach_good f Q hf hQ as s1 hg.1 (fun b hb => hQ s s1 b hg.2 (hq b (by simp [hb])))
+    exact hg.trans this
+
+/-! ### releasing several ids -/
+
+/-- the parts of the state a removal of ids does not touch -/
+def SameObjs (s s' : St) : Prop :=
+  s'.net = s.net ∧ s'.stat = s.stat ∧ s'.dyn = s.dyn ∧ s'.env = s.env ∧ s'.phan = s.phan ∧ s'.counter = s.counter
+
+theorem SameObjs.cnt {s s' : St} (h : SameObjs s s') (x : Nat) : cnt s' x = cnt s x := by
+  obtain ⟨h1, h2, h3, h4, h5, _⟩ := h
+  simp [cnt_def, h1, h2, h3, h4, h5]
+
+theorem release_same (s : St) (k : Nat) : SameObjs s (release s k).1 := by simp [SameObjs]
+
+theorem forEachRelease_same : ∀ (ks : List Nat) (s : St), SameObjs s (forEach release s ks).1
+  | [], s => by simp [forEach, SameObjs]
+  | k :: ks, s => by
+    show SameObjs s (andThen (release s k) (fun s1 => forEach release s1 ks)).1
+    apply andThen_prop (P := fun t => SameObjs s t) (release_same s k)
+    intro s1 h1
+    have h2 := forEachRelease_same ks s1
+    unfold SameObjs at *
+    grind
+
+theorem forEachRelease_sub : ∀ (ks : List Nat) (s : St) (x : Nat), x ∈ (forEach release s ks).1.idSet → x ∈ s.idSet
+  | [], s, x => by simp [forEach]
+  | k :: ks, s, x => by
+    show x ∈ (andThen (release s k) (fun s1 => forEach release s1 ks)).1.idSet → x ∈ s.idSet
+    apply andThen_prop (P := fun t => x ∈ t.idSet → x ∈ s.idSet)
+    · intro h; exact ((release_mem s k x).mp h).1
+    · intro s1 h1 h2
+      exact h1 (forEachRelease_sub ks s1 x h2)
+
+/-- releasing distinct reserved ids succeeds and removes exactly these ids. -/
+theorem forEachRelease_ok : ∀ (ks : List Nat) (s : St), ks.Nodup → (∀ k ∈ ks, k ∈ s.idSet) →
+    (forEach release s ks).2 = .ok ∧ ∀ x, x ∈ (forEach release s ks).1.idSet ↔ x ∈ s.idSet ∧ x ∉ ks
+  | [], s, _, _ => by simp [forEach]
+  | k :: ks, s, hn, hm => by
+    have hk : k ∈ s.idSet := hm k (by simp)
+    have hr : release s k = ((release s k).1, .ok) := by
+      have := release_out s k; simp [hk] at this
+      exact Prod.ext rfl this
+    show (andThen (release s k) (fun s1 => forEach release s1 ks)).2 = .ok ∧ ∀ x,
+      x ∈ (andThen (release s k) (fun s1 => forEach release s1 ks)).1.idSet ↔ _
+    rw [hr]
+    show (forEach release (release s k).1 ks).2 = .ok ∧ ∀ x, x ∈ (forEach release (release s k).1 ks).1.idSet ↔ _
+    have hn' := List.nodup_cons.mp hn
+    have ih := forEachRelease_ok ks (release s k).1 hn'.2 (fun j hj => by
+      rw [release_mem]; exact ⟨hm j (by simp [hj]), fun e => hn'.1 (e ▸ hj)⟩)
+    refine ⟨ih.1, fun x => ?_⟩
+    rw [ih.2 x, release_mem]
+    simp only [List.mem_cons]; grind
+
+/-! ### remove_traffic_sign / remove_traffic_light / the lanelet loop body -/
+
+theorem removeSign_mem (s : St) (k x : Nat) : x ∈ (removeSign s k).1.idSet ↔ x ∈ s.idSet ∧ x ≠ k := by
+  simp [removeSign, release_mem]
+
+theorem removeSign_cnt (s : St) (k x : Nat) :
+    cnt (removeSign s k).1 x = if x = k then cnt s k - s.net.signs.count k else cnt s x := by
+  simp only [removeSign, cnt_def, release_net, release_stat, release_dyn, release_env, release_phan, removeSign_lids,
+    removeSign_lights, removeSign_inters, removeSign_signs, count_filter_ne]
+  split
+  · subst_vars; omega
+  · rfl
+
+theorem removeSign_good (s : St) (k : Nat) (h : Inv s) (q : QS s k) : Good s (removeSign s k).1 := by
+  refine ⟨inv_of_remove h (removeSign_cnt s k) (removeSign_mem s k) (by simp [removeSign]) ?_, ?_⟩
+  · intro hk
+    rcases q with q | q
+    · exact List.count_pos_iff.mpr q
+    · exact absurd hk q
+  · refine ⟨fun x hx => ((removeSign_mem s k x).mp hx).1, fun j hj => ?_, fun j hj => ?_, fun j hj => ?_, fun j hj => ?_⟩
+    · by_cases e : j = k
+      · exact .inr (by rw [removeSign_mem]; simp [e])
+      · exact .inl (by simp [removeSign, removeSign_signs, hj, e])
+    · exact .inl (by simpa [removeSign] using hj)
+    · exact .inl (by simpa [removeSign] using hj)
+    · exact .inl (by simpa [removeSign] using hj)
+
+theorem removeLight_mem (s : St) (k x : Nat) : x ∈ (removeLight s k).1.idSet ↔ x ∈ s.idSet ∧ x ≠ k := by
+  simp [removeLight, release_mem]
+
+theorem removeLight_cnt (s : St) (k x : Nat) :
+    cnt (removeLight s k).1 x = if x = k then cnt s k - s.net.lights.count k else cnt s x := by
+  simp only [removeLight, cnt_def, release_net, release_stat, release_dyn, release_env, release_phan, removeLight_lids,
+    removeLight_lights, removeLight_inters, removeLight_signs, count_filter_ne]
+  split
+  · subst_vars; omega
+  · rfl
+
+theorem removeLight_good (s : St) (k : Nat) (h : Inv s) (q : QL s k) : Good s (removeLight s k).1 := by
+  refine ⟨inv_of_remove h (removeLight_cnt s k) (removeLight_mem s k) (by simp [removeLight]) ?_, ?_⟩
+  · intro hk
+    rcases q with q | q
+    · exact List.count_pos_iff.mpr q
+    · exact absurd hk q
+  · refine ⟨fun x hx => ((removeLight_mem s k x).mp hx).1, fun j hj => ?_, fun j hj => ?_, fun j hj => ?_, fun j hj => ?_⟩
+    · exact .inl (by simpa [removeLight] using hj)
+    · by_cases e : j = k
+      · exact .inr (by rw [removeLight_mem]; simp [e])
+      · exact .inl (by simp [removeLight, removeLight_lights, hj, e])
+    · exact .inl (by simpa [removeLight] using hj)
+    · exact .inl (by simpa [removeLight] using hj)
+
+theorem dropLanelet_mem (s : St) (l : Lanelet) (x : Nat) :
+    x ∈ (dropLanelet s l).1.idSet ↔ x ∈ s.idSet ∧ x ≠ l.id := by
+  simp [dropLanelet, release_mem]
+
+theorem dropLanelet_cnt (s : St) (l : Lanelet) (x : Nat) :
+    cnt (dropLanelet s l).1 x = if x = l.id then cnt s l.id - (lids s.net).count l.id else cnt s x := by
+  simp only [dropLanelet, cnt_def, release_net, release_stat, release_dyn, release_env, release_phan, removeLanelet_lids,
+    removeLanelet_lights, removeLanelet_inters, removeLanelet_signs, count_filter_ne]
+  split
+  · subst_vars; omega
+  · rfl
+
+theorem dropLanelet_good (s : St) (l : Lanelet) (h : Inv s) (q : QLa s l.id) : Good s (dropLanelet s l).1 := by
+  refine ⟨inv_of_remove h (dropLanelet_cnt s l) (dropLanelet_mem s l) (by simp [dropLanelet]) ?_, ?_⟩
+  · intro hk
+    rcases q with q | q
+    · exact List.count_pos_iff.mpr q
+    · exact absurd hk q
+  · refine ⟨fun x hx => ((dropLanelet_mem s l x).mp hx).1, fun j hj => ?_, fun j hj => ?_, fun j hj => ?_, fun j hj => ?_⟩
+    · exact .inl (by simpa [dropLanelet] using hj)
+    · exact .inl (by simpa [dropLanelet] using hj)
+    · by_cases e : j = l.id
+      · exact .inr (by rw [dropLanelet_mem]; simp [e])
+      · exact .inl (by simp only [dropLanelet, release_net, removeLanelet_lids]; simp [hj, e])
+    · exact .inl (by simpa [dropLanelet] using hj)
+
+/-! ### remove_intersection -/
+
+theorem count_le_flatMap_of_mem (is : List Inter) (i : Inter) (hi : i ∈ is) (x : Nat) :
+    (interIds i).count x ≤ (is.flatMap interIds).count x := by
+  induction is with
+  | nil => simp at hi
+  | cons a t ih =>
+    rw [List.flatMap_cons, List.count_append]
+    rcases List.mem_cons.mp hi with h | h
+    · subst h; omega
+    · have := ih h; omega
+
+theorem removeInter_proj (s : St) (i : Inter) :
+    (removeInter s i).1.net = s.net.removeInter i.id ∧ (removeInter s i).1.stat = s.stat ∧
+    (removeInter s i).1.dyn = s.dyn ∧ (removeInter s i).1.env = s.env ∧ (removeInter s i).1.phan = s.phan ∧
+    (removeInter s i).1.counter = s.counter ∧ ∀ x, x ∈ (removeInter s i).1.idSet → x ∈ s.idSet := by
+  unfold removeInter
+  apply andThen_prop (P := fun t => t.net = s.net.removeInter i.id ∧ t.stat = s.stat ∧ t.dyn = s.dyn ∧ t.env = s.env ∧
+    t.phan = s.phan ∧ t.counter = s.counter ∧ ∀ x, x ∈ t.idSet → x ∈ s.idSet)
+  · refine ⟨by simp, by simp, by simp, by simp, by simp, by simp, fun x hx => ?_⟩
+    exact ((release_mem _ _ x).mp hx).1
+  · intro s1 ⟨h1, h2, h3, h4, h5, h6, h7⟩
+    obtain ⟨g1, g2, g3, g4, g5, g6⟩ := forEachRelease_same i.incs s1
+    exact ⟨g1.trans h1, g2.trans h2, g3.trans h3, g4.trans h4, g5.trans h5, g6.trans h6,
+      fun x hx => h7 x (forEachRelease_sub _ _ x hx)⟩
+
+theorem cnt_removeInter (s : St) (i : Inter) (x : Nat) :
+    cnt (removeInter s i).1 x + (s.net.inters.flatMap interIds).count x
+      = cnt s x + ((s.net.inters.filter (fun j => j.id ≠ i.id)).flatMap interIds).count x := by
+  obtain ⟨h1, h2, h3, h4, h5, _, _⟩ := removeInter_proj s i
+  simp only [cnt_def, h1, h2, h3, h4, h5, removeInter_inters, removeInter_signs, removeInter_lights, lids,
+    removeInter_lanelets]
+  omega
+
+theorem Inv.le_one {s : St} (h : Inv s) (x : Nat) : cnt s x ≤ 1 := by
+  have := h.1 x; split at this <;> omega
+
+theorem Inv.mem_of_pos {s : St} (h : Inv s) {x : Nat} (hx : 0 < cnt s x) : x ∈ s.idSet := by
+  have := h.1 x; split at this
+  · assumption
+  · omega
+
+theorem inters_count_le_cnt (s : St) (x : Nat) : (s.net.inters.flatMap interIds).count x ≤ cnt s x := by
+  rw [cnt_def]; omega
+
+theorem removeInter_good (s : St) (i : Inter) (h : Inv s) (q : QI s i) : Good s (removeInter s i).1 := by
+  obtain ⟨p1, p2, p3, p4, p5, p6, p7⟩ := removeInter_proj s i
+  have hcnt := cnt_removeInter s i
+  by_cases hi : i ∈ s.net.inters
+  · -- contained: the id and all incoming ids are released
+    have hle : ∀ x, (interIds i).count x ≤ cnt s x := fun x =>
+      Nat.le_trans (count_le_flatMap_of_mem _ i hi x) (inters_count_le_cnt s x)
+    have hnod : (interIds i).Nodup := List.nodup_iff_count.mpr fun x => Nat.le_trans (hle x) (h.le_one x)
+    have hnod' := List.nodup_cons.mp hnod
+    have hmemid : ∀ x, x ∈ interIds i → x ∈ s.idSet := fun x hx =>
+      h.mem_of_pos (Nat.lt_of_lt_of_le (List.count_pos_iff.mpr hx) (hle x))
+    have hid : i.id ∈ s.idSet := hmemid _ (by simp [interIds])
+    have hrel : release { s with net := s.net.removeInter i.id } i.id
+        = ((release { s with net := s.net.removeInter i.id } i.id).1, .ok) := by
+      have := release_out { s with net := s.net.removeInter i.id } i.id
+      simp only [hid, if_true] at this
+      exact Prod.ext rfl this
+    have hok := forEachRelease_ok i.incs (release { s with net := s.net.removeInter i.id } i.id).1 hnod'.2
+      (fun k hk => by
+        rw [release_mem]
+        exact ⟨hmemid k (by simp [interIds, hk]), fun e => hnod'.1 (e ▸ hk)⟩)
+    have hmem : ∀ x, x ∈ (removeInter s i).1.idSet ↔ x ∈ s.idSet ∧ x ∉ interIds i := by
+      intro x
+      have : (removeInter s i).1 = (forEach release (release { s with net := s.net.removeInter i.id } i.id).1 i.incs).1 := by
+        unfold removeInter; rw [hrel]; rfl
+      rw [this, hok.2 x, release_mem]
+      simp [interIds]; grind
+    have hone : (s.net.inters.map (·.id)).count i.id ≤ 1 :=
+      Nat.le_trans (count_ids_le _ _) (Nat.le_trans (inters_count_le_cnt s _) (h.le_one _))
+    refine ⟨⟨fun x => ?_, fun hn => ?_⟩, ⟨p7, fun j hj => .inl (by simpa [p1] using hj),
+      fun j hj => .inl (by simpa [p1] using hj), fun j hj => .inl (by simpa [p1, lids] using hj), fun j hj => ?_⟩⟩
+    · have e1 := count_flatMap_remove _ i hi hone x
+      have e2 := hcnt x
+      have e3 := h.1 x
+      have e4 := hmem x
+      have e5 := hle x
+      have e6 := List.count_pos_iff (a := x) (l := interIds i)
+      grind
+    · have := h.2 (p6 ▸ hn)
+      apply List.eq_nil_iff_forall_not_mem.mpr
+      intro x hx; have := p7 x hx; simp_all
+    · by_cases e : j.id = i.id
+      · exact .inr (by rw [hmem]; simp [interIds, e])
+      · exact .inl (by rw [p1, removeInter_inters]; simp [hj, e])
+  · -- not contained: its id is free, nothing changes
+    have hid : i.id ∉ s.idSet := by rcases q with q | q; exact absurd q hi; exact q
+    have habs : i.id ∉ s.net.inters.map (·.id) := by
+      intro hm
+      obtain ⟨j, hj, e⟩ := List.mem_map.mp hm
+      have : 0 < (interIds j).count i.id := List.count_pos_iff.mpr (by simp [interIds, e])
+      exact hid (h.mem_of_pos (Nat.lt_of_lt_of_le this
+        (Nat.le_trans (count_le_flatMap_of_mem _ j hj _) (inters_count_le_cnt s _))))
+    have hfil := filter_inters_absent _ _ habs
+    have hs' : (removeInter s i).1.idSet = s.idSet := by
+      unfold removeInter
+      have : release { s with net := s.net.removeInter i.id } i.id = ({ s with net := s.net.removeInter i.id }, .err .key) := by
+        unfold release; simp [hid]
+      rw [this]; rfl
+    refine ⟨⟨fun x => ?_, fun hn => ?_⟩, ⟨p7, fun j hj => .inl (by simpa [p1] using hj),
+      fun j hj => .inl (by simpa [p1] using hj), fun j hj => .inl (by simpa [p1, lids] using hj), fun j hj => ?_⟩⟩
+    · have e2 := hcnt x
+      rw [hfil] at e2
+      rw [hs']; have := h.1 x; omega
+    · rw [hs']; exact h.2 (p6 ▸ hn)
+    · exact .inl (by rw [p1, removeInter_inters, hfil]; exact hj)
+
+/-! ### remove_obstacle -/
+
+theorem removeObstacle_good (s : St) (k : Nat) (h : Inv s) : Good s (removeObstacle s k).1 := by
+  unfold removeObstacle
+  have shr : ∀ s' : St, s'.net = s.net → (∀ x, x ∈ s'.idSet → x ∈ s.idSet) → Shrinks s s' := fun s' hn hs =>
+    ⟨hs, fun j hj => .inl (by rw [hn]; exact hj), fun j hj => .inl (by rw [hn]; exact hj),
+     fun j hj => .inl (by rw [hn]; exact hj), fun j hj => .inl (by rw [hn]; exact hj)⟩
+  split
+  · rename_i hk
+    refine ⟨inv_of_remove (c := s.stat.count k) h (fun x => ?_) (fun x => by rw [release_mem]) (by simp)
+      (fun _ => List.count_pos_iff.mpr hk), shr _ (by simp) (fun x hx => ((release_mem _ _ x).mp hx).1)⟩
+    simp only [cnt_def, release_net, release_stat, release_dyn, release_env, release_phan, count_filter_ne]
+    split
+    · subst_vars; omega
+    · rfl
+  · split
+    · rename_i _ hk
+      refine ⟨inv_of_remove (c := s.dyn.count k) h (fun x => ?_) (fun x => by rw [release_mem]) (by simp)
+        (fun _ => List.count_pos_iff.mpr hk), shr _ (by simp) (fun x hx => ((release_mem _ _ x).mp hx).1)⟩
+      simp only [cnt_def, release_net, release_stat, release_dyn, release_env, release_phan, count_filter_ne]
+      split
+      · subst_vars; omega
+      · rfl
+    · split
+      · rename_i _ _ hk
+        refine ⟨inv_of_remove (c := s.env.count k) h (fun x => ?_) (fun x => by rw [release_mem]) (by simp)
+          (fun _ => List.count_pos_iff.mpr hk), shr _ (by simp) (fun x hx => ((release_mem _ _ x).mp hx).1)⟩
+        simp only [cnt_def, release_net, release_stat, release_dyn, release_env, release_phan, count_filter_ne]
+        split
+        · subst_vars; omega
+        · rfl
+      · split
+        · rename_i _ _ _ hk
+          refine ⟨inv_of_remove (c := s.phan.count k) h (fun x => ?_) (fun x => by rw [release_mem]) (by simp)
+            (fun _ => List.count_pos_iff.mpr hk), shr _ (by simp) (fun x hx => ((release_mem _ _ x).mp hx).1)⟩
+          simp only [cnt_def, release_net, release_stat, release_dyn, release_env, release_phan, count_filter_ne]
+          split
+          · subst_vars; omega
+          · rfl
+        · exact ⟨h, Shrinks.refl s⟩
+
+/-! ### list forms -/
+
+theorem removeObstacles_good (s : St) (ks : List Nat) (h : Inv s) : Good s (removeObstacles s ks).1 :=
+  forEach_good removeObstacle (fun _ _ => True) (fun s k hi _ => removeObstacle_good s k hi) (fun _ _ _ _ _ => trivial)
+    ks s h (fun _ _ => trivial)
+
+theorem removeSigns_good (s : St) (ks : List Nat) (h : Inv s) (q : ∀ k ∈ ks, QS s k) : Good s (removeSigns s ks).1 :=
+  forEach_good removeSign QS removeSign_good (fun _ _ _ hs hq => hq.mono hs) ks s h q
+
+theorem removeLights_good (s : St) (ks : List Nat) (h : Inv s) (q : ∀ k ∈ ks, QL s k) : Good s (removeLights s ks).1 :=
+  forEach_good removeLight QL removeLight_good (fun _ _ _ hs hq => hq.mono hs) ks s h q
+
+theorem removeInters_good (s : St) (is : List Inter) (h : Inv s) (q : ∀ i ∈ is, QI s i) :
+    Good s (removeInters s is).1 :=
+  forEach_good removeInter QI removeInter_good (fun _ _ _ hs hq => hq.mono hs) is s h q
+
+theorem dropLanelets_good (s : St) (ls : List Lanelet) (h : Inv s) (q : ∀ l ∈ ls, QLa s l.id) :
+    Good s (forEach dropLanelet s ls).1 :=
+  forEach_good dropLanelet (fun s l => QLa s l.id) dropLanelet_good (fun _ _ _ hs hq => hq.mono hs) ls s h q
+
+/-! ### remove_lanelet -/
+
+theorem removeLanelets_good (s : St) (ls : List Lanelet) (refd : Bool) (h : Inv s) (q : ∀ l ∈ ls, QLa s l.id) :
+    Good s (removeLanelets s ls refd).1 := by
+  unfold removeLanelets
+  apply andThen_prop (P := fun t => Good s t)
+  · split
+    · apply andThen_prop (P := fun t => Good s t)
+      · exact removeSigns_good s _ h (fun k hk => .inl (List.mem_filter.mp hk).1)
+      · intro s1 g1
+        exact g1.trans (removeLights_good s1 _ g1.1 (fun k hk => (QL.mono g1.2 (.inl (List.mem_filter.mp hk).1))))
+    · exact ⟨h, Shrinks.refl s⟩
+  · intro s1 g1
+    exact g1.trans (dropLanelets_good s1 ls g1.1 (fun l hl => (q l hl).mono g1.2))
+
+/-! ### mark -/
+
+@[simp] theorem mark_net (s : St) (k : Nat) : (mark s k).1.net = s.net := by
+  unfold mark; simp only []; split <;> rfl
+@[simp] theorem mark_stat (s : St) (k : Nat) : (mark s k).1.stat = s.stat := by
+  unfold mark; simp only []; split <;> rfl
+@[simp] theorem mark_dyn (s : St) (k : Nat) : (mark s k).1.dyn = s.dyn := by
+  unfold mark; simp only []; split <;> rfl
+@[simp] theorem mark_env (s : St) (k : Nat) : (mark s k).1.env = s.env := by
+  unfold mark; simp only []; split <;> rfl
+@[simp] theorem mark_phan (s : St) (k : Nat) : (mark s k).1.phan = s.phan := by
+  unfold mark; simp only []; split <;> rfl
+theorem mark_counter (s : St) (k : Nat) : (mark s k).1.counter = s.counter.or (some k) := by
+  unfold mark; simp only []; split <;> rfl
+theorem mark_counter_ne (s : St) (k : Nat) : (mark s k).1.counter ≠ none := by
+  rw [mark_counter]; cases s.counter <;> simp
+theorem mark_mem (s : St) (k x : Nat) : x ∈ (mark s k).1.idSet ↔ x ∈ s.idSet ∨ x = k := by
+  unfold mark; simp only []; split <;> grind
+theorem mark_err (s : St) (k : Nat) : (mark s k).2 = if k ∈ s.idSet then some .value else none := by
+  unfold mark; simp only []; split <;> simp_all
+theorem mark_eq (s : St) (k : Nat) : mark s k = ((mark s k).1, if k ∈ s.idSet then some .value else none) :=
+  Prod.ext rfl (mark_err s k)
+
+theorem Inv.counter_ne {s : St} (h : Inv s) {k : Nat} (hk : k ∈ s.idSet) : s.counter ≠ none := by
+  intro hn; have := h.2 hn; simp_all
+
+/-- marking an id that is in use changes nothing at all -/
+theorem mark_used (s : St) (k : Nat) (h : Inv s) (hk : k ∈ s.idSet) : mark s k = (s, some .value) := by
+  have := h.counter_ne hk
+  unfold mark
+  cases hc : s.counter with
+  | none => exact absurd hc this
+  | some c =>
+    have : ({ s with counter := (some c).or (some k) } : St) = s := by cases s; simp_all
+    simp only [this, hk, if_true]
+
+theorem Inv.cnt_zero {s : St} (h : Inv s) {k : Nat} (hk : k ∉ s.idSet) : cnt s k = 0 := by
+  have := h.1 k; simp_all
+
+theorem inv_of_add {s s' : St} {k : Nat} (h : Inv s) (hk : k ∉ s.idSet)
+    (hcnt : ∀ x, cnt s' x = cnt s x + if x = k then 1 else 0)
+    (hmem : ∀ x, x ∈ s'.idSet ↔ x ∈ s.idSet ∨ x = k) (hctr : s'.counter ≠ none) : Inv s' := by
+  refine ⟨fun x => ?_, fun hn => absurd hn hctr⟩
+  have := h.1 x; have := hcnt x; have := hmem x
+  grind
+
+theorem putObstacle_cnt (s : St) (r : Role) (k x : Nat) (h : cnt s k = 0) :
+    cnt (putObstacle s r k) x = cnt s x + if x = k then 1 else 0 := by
+  rw [cnt_def] at h
+  have h1 : k ∉ s.stat := List.count_eq_zero.mp (by omega)
+  have h2 : k ∉ s.dyn := List.count_eq_zero.mp (by omega)
+  have h3 : k ∉ s.env := List.count_eq_zero.mp (by omega)
+  have h4 : k ∉ s.phan := List.count_eq_zero.mp (by omega)
+  cases r <;> simp only [putObstacle, cnt_def, count_dictSet, h1, h2, h3, h4] <;> split <;> simp_all <;> omega
+
+theorem cnt_mark (s : St) (k x : Nat) : cnt (mark s k).1 x = cnt s x := by simp [cnt_def]
+
+theorem onMarked_none (a : St) (g : St → St) : onMarked (a, none) g = (g a, .ok) := rfl
+theorem onMarked_some (a : St) (e : Err) (g : St → St) : onMarked (a, some e) g = (a, .err e) := rfl
+
+theorem addObstacle_inv (s : St) (r : Role) (k : Nat) (refs : List Nat) (h : Inv s) :
+    Inv (addObj s (.obstacle r k) refs).1 := by
+  show Inv (onMarked (mark s k) _).1
+  by_cases hk : k ∈ s.idSet
+  · rw [mark_used s k h hk]; exact h
+  · rw [mark_eq]; simp only [hk, if_false, onMarked_none]
+    refine inv_of_add h hk (fun x => ?_) (fun x => ?_) ?_
+    · rw [putObstacle_cnt _ _ _ _ (by rw [cnt_mark]; exact h.cnt_zero hk), cnt_mark]
+    · cases r <;> simp [putObstacle, mark_mem]
+    · cases r <;> simp [putObstacle, mark_counter_ne]
+
+theorem cnt_zero_parts {s : St} {k : Nat} (h : cnt s k = 0) :
+    k ∉ lids s.net ∧ k ∉ s.net.signs ∧ k ∉ s.net.lights ∧ (s.net.inters.flatMap interIds).count k = 0 := by
+  rw [cnt_def] at h
+  exact ⟨List.count_eq_zero.mp (by omega), List.count_eq_zero.mp (by omega), List.count_eq_zero.mp (by omega), by omega⟩
+
+theorem addLanelet_inv (s : St) (l : Lanelet) (refs : List Nat) (h : Inv s) :
+    Inv (addObj s (.lanelet l) refs).1 := by
+  show Inv (onMarked (mark s l.id) _).1
+  by_cases hk : l.id ∈ s.idSet
+  · rw [mark_used s _ h hk]; exact h
+  · rw [mark_eq]; simp only [hk, if_false, onMarked_none]
+    have hz := cnt_zero_parts (h.cnt_zero hk)
+    refine inv_of_add h hk (fun x => ?_) (fun x => by simp [mark_mem]) (mark_counter_ne _ _)
+    simp only [cnt_def, mark_net, mark_stat, mark_dyn, mark_env, mark_phan, addLanelet_lids, addLanelet_signs,
+      addLanelet_lights, addLanelet_inters, count_dictSet]
+    split <;> simp_all <;> omega
+
+theorem addSign_inv (s : St) (k : Nat) (refs : List Nat) (h : Inv s) : Inv (addObj s (.sign k) refs).1 := by
+  show Inv (onMarked (mark s k) _).1
+  by_cases hk : k ∈ s.idSet
+  · rw [mark_used s _ h hk]; exact h
+  · rw [mark_eq]; simp only [hk, if_false, onMarked_none]
+    have hz := cnt_zero_parts (h.cnt_zero hk)
+    refine inv_of_add h hk (fun x => ?_) (fun x => by simp [mark_mem]) (mark_counter_ne _ _)
+    simp only [cnt_def, mark_net, mark_stat, mark_dyn, mark_env, mark_phan, addSign_lids, addSign_signs,
+      addSign_lights, addSign_inters, count_dictSet]
+    split <;> simp_all <;> omega
+
+theorem addLight_inv (s : St) (k : Nat) (refs : List Nat) (h : Inv s) : Inv (addObj s (.light k) refs).1 := by
+  show Inv (onMarked (mark s k) _).1
+  by_cases hk : k ∈ s.idSet
+  · rw [mark_used s _ h hk]; exact h
+  · rw [mark_eq]; simp only [hk, if_false, onMarked_none]
+    have hz := cnt_zero_parts (h.cnt_zero hk)
+    refine inv_of_add h hk (fun x => ?_) (fun x => by simp [mark_mem]) (mark_counter_ne _ _)
+    simp only [cnt_def, mark_net, mark_stat, mark_dyn, mark_env, mark_phan, addLight_lids, addLight_signs,
+      addLight_lights, addLight_inters, count_dictSet]
+    split <;> simp_all <;> omega
+
+/-! ### several ids at once: intersections and whole networks -/
+
+/-- the check `_mark_object_ids_as_used` performs before it marks anything -/
+def Fresh (s : St) (ks : List Nat) : Prop := ks.Nodup ∧ ∀ k ∈ ks, k ∉ s.idSet
+
+instance (s : St) (ks : List Nat) : Decidable (Fresh s ks) := by unfold Fresh; infer_instance
+
+theorem markMany_fresh (s : St) (ks : List Nat) (h : Fresh s ks) :
+    markMany s ks = ({ s with idSet := ks.reverse ++ s.idSet, counter := s.counter.or ks.head? }, none) := by
+  unfold Fresh at h; unfold markMany; rw [if_pos h]
+
+theorem markMany_used (s : St) (ks : List Nat) (h : ¬ Fresh s ks) : markMany s ks = (s, some .value) := by
+  unfold Fresh at h; unfold markMany; rw [if_neg h]
+
+theorem cnt_split (s : St) (x : Nat) : cnt s x = (netIds s.net).count x + (obstIds s).count x := by
+  simp [cnt, allIds, List.count_append]
+
+theorem Inv.inter_id_absent {s : St} (h : Inv s) {k : Nat} (hk : k ∉ s.idSet) : k ∉ s.net.inters.map (·.id) := by
+  intro hm
+  obtain ⟨j, hj, e⟩ := List.mem_map.mp hm
+  have : 0 < (interIds j).count k := List.count_pos_iff.mpr (by simp [interIds, e])
+  exact hk (h.mem_of_pos (Nat.lt_of_lt_of_le this
+    (Nat.le_trans (count_le_flatMap_of_mem _ j hj _) (inters_count_le_cnt s _))))
+
+theorem addInter_inv (s : St) (i : Inter) (refs : List Nat) (h : Inv s) : Inv (addObj s (.inter i) refs).1 := by
+  show Inv (onMarked (markMany s (interIds i)) _).1
+  by_cases hf : Fresh s (interIds i)
+  · rw [markMany_fresh s _ hf, onMarked_none]
+    have habs : i.id ∉ s.net.inters.map (·.id) := h.inter_id_absent (hf.2 _ (by simp [interIds]))
+    refine ⟨fun x => ?_, fun hn => ?_⟩
+    · have e1 := h.1 x
+      have e2 := List.nodup_iff_count.mp hf.1 x
+      have e3 := List.count_pos_iff (a := x) (l := interIds i)
+      have e4 := hf.2 x
+      simp only [cnt_def, addInter_lanelets, lids, addInter_signs, addInter_lights, addInter_inters _ _ habs,
+        List.flatMap_append, List.count_append, List.flatMap_cons, List.flatMap_nil, List.append_nil,
+        List.mem_append, List.mem_reverse] at e1 ⊢
+      grind
+    · exfalso
+      cases hc : s.counter <;> simp [hc, interIds] at hn
+  · rw [markMany_used s _ hf]; exact h
+
+theorem addNetwork_inv (s : St) (n : Net) (h : Inv s) : Inv (addNetwork s n).1 := by
+  unfold addNetwork
+  by_cases hf : Fresh s (netIds n)
+  · rw [markMany_fresh s _ hf, onMarked_none]
+    refine ⟨fun x => ?_, fun hn => ?_⟩
+    · have e1 := h.1 x
+      have e2 := List.nodup_iff_count.mp hf.1 x
+      have e3 := List.count_pos_iff (a := x) (l := netIds n)
+      have e4 := hf.2 x
+      have e5 := List.count_pos_iff (a := x) (l := netIds s.net)
+      simp only [cnt_split] at e1 ⊢
+      simp only [obstIds, List.mem_filter, List.mem_append, List.mem_reverse, decide_eq_true_eq] at e1 ⊢
+      grind
+    · apply List.eq_nil_iff_forall_not_mem.mpr
+      intro x hx
+      simp only [List.mem_filter, List.mem_append, List.mem_reverse] at hx
+      cases hc : s.counter with
+      | none =>
+        have := h.2 hc
+        simp only [hc] at hn
+        have : netIds n = [] := by cases hl : netIds n <;> simp_all
+        simp_all
+      | some c => simp [hc] at hn
+  · rw [markMany_used s _ hf]; exact h
+
+theorem addObj_inv (s : St) (o : Obj) (refs : List Nat) (h : Inv s) : Inv (addObj s o refs).1 := by
+  cases o with
+  | obstacle r k => exact addObstacle_inv s r k refs h
+  | lanelet l => exact addLanelet_inv s l refs h
+  | sign k => exact addSign_inv s k refs h
+  | light k => exact addLight_inv s k refs h
+  | inter i => exact addInter_inv s i refs h
+  | network n => exact addNetwork_inv s n h
+  | invalid => exact h
+
+theorem forEach_inv {α : Type} (f : St → α → St × Out) (hf : ∀ s a, Inv s → Inv (f s a).1) :
+    ∀ (as : List α) (s : St), Inv s → Inv (forEach f s as).1
+  | [], _, hi => hi
+  | a :: as, s, hi => by
+    show Inv (andThen (f s a) (fun s1 => forEach f s1 as)).1
+    exact andThen_prop (P := Inv) (hf s a hi) (fun s1 h1 => forEach_inv f hf as s1 h1)
+
+theorem addList_inv (s : St) (os : List Obj) (refs : List Nat) (h : Inv s) : Inv (addList s os refs).1 :=
+  forEach_inv _ (fun s o hi => addObj_inv s o refs hi) os s h
+
+/-! ### erase_lanelet_network / replace_lanelet_network -/
+
+/-- the network components only lose members -/
+structure Sub (s s' : St) : Prop where
+  lanelets : ∀ k ∈ lids s'.net, k ∈ lids s.net
+  signs : ∀ k ∈ s'.net.signs, k ∈ s.net.signs
+  lights : ∀ k ∈ s'.net.lights, k ∈ s.net.lights
+  inters : ∀ i ∈ s'.net.inters, i ∈ s.net.inters
+
+theorem Sub.refl (s : St) : Sub s s := ⟨fun _ h => h, fun _ h => h, fun _ h => h, fun _ h => h⟩
+theorem Sub.trans {a b c : St} (h1 : Sub a b) (h2 : Sub b c) : Sub a c :=
+  ⟨fun k hk => h1.lanelets k (h2.lanelets k hk), fun k hk => h1.signs k (h2.signs k hk),
+   fun k hk => h1.lights k (h2.lights k hk), fun k hk => h1.inters k (h2.inters k hk)⟩
+
+theorem removeSign_sub (s : St) (k : Nat) : Sub s (removeSign s k).1 := by
+  refine ⟨fun j hj => by simpa [removeSign] using hj, fun j hj => ?_, fun j hj => by simpa [removeSign] using hj,
+    fun j hj => by simpa [removeSign] using hj⟩
+  simp only [removeSign, release_net, removeSign_signs] at hj
+  exact (List.mem_filter.mp hj).1
+
+theorem removeLight_sub (s : St) (k : Nat) : Sub s (removeLight s k).1 := by
+  refine ⟨fun j hj => by simpa [removeLight] using hj, fun j hj => by simpa [removeLight] using hj, fun j hj => ?_,
+    fun j hj => by simpa [removeLight] using hj⟩
+  simp only [removeLight, release_net, removeLight_lights] at hj
+  exact (List.mem_filter.mp hj).1
+
+theorem dropLanelet_sub (s : St) (l : Lanelet) : Sub s (dropLanelet s l).1 := by
+  refine ⟨fun j hj => ?_, fun j hj => by simpa [dropLanelet] using hj, fun j hj => by simpa [dropLanelet] using hj,
+    fun j hj => by simpa [dropLanelet] using hj⟩
+  simp only [dropLanelet, release_net, removeLanelet_lids] at hj
+  exact (List.mem_filter.mp hj).1
+
+theorem removeInter_sub (s : St) (i : Inter) : Sub s (removeInter s i).1 := by
+  obtain ⟨p1, _⟩ := removeInter_proj s i
+  refine ⟨fun j hj => by simpa [p1, lids] using hj, fun j hj => by simpa [p1] using hj, fun j hj => by simpa [p1] using hj,
+    fun j hj => ?_⟩
+  rw [p1, removeInter_inters] at hj
+  exact (List.mem_filter.mp hj).1
+
+theorem forEach_sub {α : Type} (f : St → α → St × Out) (hf : ∀ s a, Sub s (f s a).1) :
+    ∀ (as : List α) (s : St), Sub s (forEach f s as).1
+  | [], s => Sub.refl s
+  | a :: as, s => by
+    show Sub s (andThen (f s a) (fun s1 => forEach f s1 as)).1
+    exact andThen_prop (P := fun t => Sub s t) (hf s a) (fun s1 h1 => h1.trans (forEach_sub f hf as s1))
+
+theorem removeLanelets_sub (s : St) (ls : List Lanelet) (refd : Bool) : Sub s (removeLanelets s ls refd).1 := by
+  unfold removeLanelets
+  apply andThen_prop (P := fun t => Sub s t)
+  · split
+    · apply andThen_prop (P := fun t => Sub s t)
+      · exact forEach_sub _ removeSign_sub _ _
+      · intro s1 g1; exact g1.trans (forEach_sub _ removeLight_sub _ _)
+    · exact Sub.refl s
+  · intro s1 g1; exact g1.trans (forEach_sub _ dropLanelet_sub _ _)
+
+theorem release_of_not_mem (s : St) (k : Nat) (h : k ∉ s.idSet) : release s k = (s, .err .key) := by
+  unfold release; rw [if_neg h]
+
+theorem eraseLanelet_sub (s : St) (k : Nat) : Sub s (eraseLanelet s k).1 := by
+  unfold eraseLanelet
+  split
+  · exact removeLanelets_sub _ _ _
+  · exact ⟨fun j hj => by simpa using hj, fun j hj => by simpa using hj, fun j hj => by simpa using hj,
+      fun j hj => by simpa using hj⟩
+
+theorem eraseLanelet_good (s : St) (k : Nat) (h : Inv s) (q : QLa s k) : Good s (eraseLanelet s k).1 := by
+  unfold eraseLanelet
+  split
+  · rename_i l hl
+    have : l.id = k := by have := List.find?_some hl; simpa using this
+    exact removeLanelets_good s [l] true h (fun l' hl' => by simp at hl'; subst hl'; rw [this]; exact q)
+  · rename_i hnone
+    have hk : k ∉ lids s.net := by
+      intro hm
+      obtain ⟨l, hl, e⟩ := List.mem_map.mp hm
+      have := List.find?_eq_none.mp hnone l hl
+      simp [e] at this
+    have : k ∉ s.idSet := by rcases q with q | q; exact absurd q hk; exact q
+    rw [release_of_not_mem s k this]
+    exact ⟨h, Shrinks.refl s⟩
+
+theorem forEach_mono {α : Type} (f : St → α → St × Out) (G : St → Prop) (hmono : ∀ s a, G s → G (f s a).1) :
+    ∀ (as : List α) (s : St), G s → G (forEach f s as).1
+  | [], _, h => h
+  | a :: as, s, h => by
+    show G (andThen (f s a) (fun s1 => forEach f s1 as)).1
+    exact andThen_prop (P := G) (hmono s a h) (fun s1 h1 => forEach_mono f G hmono as s1 h1)
+
+/-- after a loop that ran to its end every element has been dealt with -/
+theorem forEach_gone {α : Type} (f : St → α → St × Out) (G : St → α → Prop)
+    (hstep : ∀ s a s', f s a = (s', .ok) → G s' a)
+    (hmono : ∀ s a b, G s b → G (f s a).1 b) :
+    ∀ (as : List α) (s s' : St), forEach f s as = (s', .ok) → ∀ a ∈ as, G s' a
+  | [], _, _, _, a, ha => by simp at ha
+  | a :: as, s, s', h, b, hb => by
+    obtain ⟨s1, h1, h2⟩ := andThen_ok (r := f s a) (g := fun s1 => forEach f s1 as) h
+    rcases List.mem_cons.mp hb with e | e
+    · subst e
+      have := forEach_mono f (fun t => G t b) (fun t a' ht => hmono t a' b ht) as s1 (hstep s b s1 h1)
+      rw [h2] at this; exact this
+    · exact forEach_gone f G hstep hmono as s1 s' h2 b e
+
+theorem andThen_of_ok {P : St → Prop} {r : St × Out} {g : St → St × Out}
+    (hr : P r.1) (hg : ∀ s1, r = (s1, .ok) → P (g s1).1) : P (andThen r g).1 := by
+  obtain ⟨s1, o⟩ := r
+  cases o with
+  | ok => exact hg s1 rfl
+  | err e => exact hr
+  | id n => exact hr
+
+theorem fst_of_eq {r : St × Out} {s' : St} {o : Out} (h : r = (s', o)) : r.1 = s' := by rw [h]
+
+theorem erase_inv (s : St) (h : Inv s) : Inv (erase s).1 := by
+  unfold erase
+  have g1 := forEach_good eraseLanelet QLa eraseLanelet_good (fun _ _ _ hs hq => hq.mono hs) (lids s.net) s h
+    (fun k hk => .inl hk)
+  apply andThen_of_ok (P := Inv) g1.1
+  intro s1 e1
+  have i1 : Inv s1 := fst_of_eq e1 ▸ g1.1
+  have sub1 : Sub s s1 := fst_of_eq e1 ▸ forEach_sub _ eraseLanelet_sub _ s
+  have gone1 := forEach_gone eraseLanelet (fun t k => k ∉ lids t.net)
+    (fun t k t' ht => by
+      unfold eraseLanelet at ht
+      split at ht
+      · rename_i l hl
+        have hlk : l.id = k := by have := List.find?_some hl; simpa using this
+        unfold removeLanelets at ht
+        obtain ⟨t1, _, ht2⟩ := andThen_ok ht
+        obtain ⟨t2, ht3, ht4⟩ := andThen_ok (r := dropLanelet t1 l) (g := fun s1 => forEach dropLanelet s1 []) ht2
+        have : t' = t2 := by simp [forEach] at ht4; exact ht4.symm
+        subst this
+        have := fst_of_eq ht3
+        rw [← this]
+        simp only [dropLanelet, release_net, removeLanelet_lids, ← hlk]
+        simp
+      · rename_i hnone
+        rw [← fst_of_eq ht, release_net]
+        intro hm
+        obtain ⟨l, hl, e⟩ := List.mem_map.mp hm
+        have := List.find?_eq_none.mp hnone l hl
+        simp [e] at this)
+    (fun t a b hb hm => hb ((eraseLanelet_sub t a).lanelets b hm))
+    _ s s1 e1
+  have l1 : lids s1.net = [] := List.eq_nil_iff_forall_not_mem.mpr fun k hk => gone1 k (sub1.lanelets k hk) hk
+  -- signs
+  have g2 := removeSigns_good s1 s1.net.signs i1 (fun k hk => .inl hk)
+  apply andThen_of_ok (P := Inv) g2.1
+  intro s2 e2
+  have i2 : Inv s2 := fst_of_eq e2 ▸ g2.1
+  have sub2 : Sub s1 s2 := fst_of_eq e2 ▸ forEach_sub _ removeSign_sub _ s1
+  have gone2 := forEach_gone removeSign (fun t k => k ∉ t.net.signs)
+    (fun t k t' ht => by
+      rw [← fst_of_eq ht]; simp [removeSign, removeSign_signs])
+    (fun t a b hb hm => hb ((removeSign_sub t a).signs b hm)) _ s1 s2 e2
+  have l2 : s2.net.signs = [] := List.eq_nil_iff_forall_not_mem.mpr fun k hk => gone2 k (sub2.signs k hk) hk
+  -- lights
+  have g3 := removeLights_good s2 s2.net.lights i2 (fun k hk => .inl hk)
+  apply andThen_of_ok (P := Inv) g3.1
+  intro s3 e3
+  have i3 : Inv s3 := fst_of_eq e3 ▸ g3.1
+  have sub3 : Sub s2 s3 := fst_of_eq e3 ▸ forEach_sub _ removeLight_sub _ s2
+  have gone3 := forEach_gone removeLight (fun t k => k ∉ t.net.lights)
+    (fun t k t' ht => by
+      rw [← fst_of_eq ht]; simp [removeLight, removeLight_lights])
+    (fun t a b hb hm => hb ((removeLight_sub t a).lights b hm)) _ s2 s3 e3
+  have l3 : s3.net.lights = [] := List.eq_nil_iff_forall_not_mem.mpr fun k hk => gone3 k (sub3.lights k hk) hk
+  -- intersections
+  have g4 := removeInters_good s3 s3.net.inters i3 (fun k hk => .inl hk)
+  apply andThen_of_ok (P := Inv) g4.1
+  intro s4 e4
+  have i4 : Inv s4 := fst_of_eq e4 ▸ g4.1
+  have sub4 : Sub s3 s4 := fst_of_eq e4 ▸ forEach_sub _ removeInter_sub _ s3
+  have gone4 := forEach_gone removeInter (fun t i => i ∉ t.net.inters)
+    (fun t i t' ht => by
+      rw [← fst_of_eq ht, (removeInter_proj t i).1, removeInter_inters]; simp)
+    (fun t a b hb hm => hb ((removeInter_sub t a).inters b hm)) _ s3 s4 e4
+  have l4 : s4.net.inters = [] := List.eq_nil_iff_forall_not_mem.mpr fun k hk => gone4 k (sub4.inters k hk) hk
+  -- everything is gone, so dropping the network object changes no count
+  have z1 : lids s4.net = [] := List.eq_nil_iff_forall_not_mem.mpr fun k hk => by
+    have := (sub2.trans (sub3.trans sub4)).lanelets k hk; simp [l1] at this
+  have z2 : s4.net.signs = [] := List.eq_nil_iff_forall_not_mem.mpr fun k hk => by
+    have := (sub3.trans sub4).signs k hk; simp [l2] at this
+  have z3 : s4.net.lights = [] := List.eq_nil_iff_forall_not_mem.mpr fun k hk => by
+    have := sub4.lights k hk; simp [l3] at this
+  refine ⟨fun x => ?_, i4.2⟩
+  have := i4.1 x
+  simp only [cnt_def, z1, z2, z3, l4] at this ⊢
+  simpa [lids] using this
+
+theorem replaceNet_inv (s : St) (n : Net) (h : Inv s) : Inv (replaceNet s n).1 :=
+  andThen_prop (P := Inv) (erase_inv s h) (fun s1 h1 => addNetwork_inv s1 n h1)
+
+/-! ### every operation -/
+
+/-- Admissible operations: a removal is applied to objects of the scenario, i.e. its argument names a contained object
+    of that kind (an intersection: with the same incoming ids) or an id that is not in use at all.  Everything else is
+    always admissible. -/
+def WfOp (s : St) : Op → Prop
+  | .removeLanelets ls _ => ∀ l ∈ ls, QLa s l.id
+  | .removeSign k => QS s k
+  | .removeSigns ks => ∀ k ∈ ks, QS s k
+  | .removeLight k => QL s k
+  | .removeLights ks => ∀ k ∈ ks, QL s k
+  | .removeInter i => QI s i
+  | .removeInters is => ∀ i ∈ is, QI s i
+  | _ => True
+
+theorem step_inv (s : St) (op : Op) (h : Inv s) (w : WfOp s op) : Inv (step s op).1 := by
+  cases op with
+  | add o refs => exact addObj_inv s o refs h
+  | addList os refs => exact addList_inv s os refs h
+  | removeObstacle k => exact (removeObstacle_good s k h).1
+  | removeObstacles ks => exact (removeObstacles_good s ks h).1
+  | removeLanelets ls refd => exact (removeLanelets_good s ls refd h w).1
+  | removeSign k => exact (removeSign_good s k h w).1
+  | removeSigns ks => exact (removeSigns_good s ks h w).1
+  | removeLight k => exact (removeLight_good s k h w).1
+  | removeLights ks => exact (removeLights_good s ks h w).1
+  | removeInter i => exact (removeInter_good s i h w).1
+  | removeInters is => exact (removeInters_good s is h w).1
+  | replaceNet n => exact replaceNet_inv s n h
+  | genId => exact ⟨h.1, fun hn => by simp [step, genId] at hn⟩
+
+/-- every operation of a history is admissible in the state it is applied to -/
+def WfRun : St → List Op → Prop
+  | _, [] => True
+  | s, op :: ops => WfOp s op ∧ WfRun (step s op).1 ops
+
+theorem run_inv : ∀ (ops : List Op) (s : St), Inv s → WfRun s ops → Inv (run s ops).1
+  | [], _, h, _ => h
+  | op :: ops, s, h, w => run_inv ops (step s op).1 (step_inv s op h w.1) w.2
+
+theorem init_inv : Inv init := by
+  refine ⟨fun x => ?_, fun _ => rfl⟩
+  simp [cnt_def, init, lids]
+
 end CR.IdPool
